@@ -35,6 +35,7 @@ func checkC20(ctx *Ctx, r *Report) {
 	cfgNilEntries(ctx, r)
 	c20UnionsNonEmptyInSchemas(ctx, r)
 	c20ThirdHunt(ctx, r)
+	c20FourthHunt(ctx, r)
 }
 
 // ---------------------------------------------------------------------------
@@ -199,7 +200,8 @@ func c20StrictHelper(ctx *Ctx, r *Report) {
 								rejects := false
 								ast.Inspect(x, func(m ast.Node) bool {
 									// a test of the node itself, not the propagation of an error met deeper (`if err := f(child); err != nil`)
-									if is, ok := m.(*ast.IfStmt); ok && is.Init == nil && blockReturnsError(hinfo, is.Body, errT) {
+									// … and a test of its nullness: the case has other error exits (a key the target does not declare)
+									if is, ok := m.(*ast.IfStmt); ok && is.Init == nil && blockReturnsError(hinfo, is.Body, errT) && strings.Contains(exprString(is.Cond), "isNullNode(") {
 										rejects = true
 									}
 									return true
@@ -1392,4 +1394,350 @@ func c20ThirdHunt(ctx *Ctx, r *Report) {
 	}
 	r.Count("definitions of the veneers schema with selector criteria", k)
 	r.Floor("definitions of the veneers schema with selector criteria", 10)
+}
+
+// c20FourthHunt — fourth hunt:
+//   - the criteria of a selector are what its loader tests (`selector.X != nil` in AsSelector), not what is called
+//     `by_…`: every definition of the published veneers schema that has those keys lists each of them in its anyOf;
+//   - a type names its kind and is described under the key of that kind: for every case of ast.Type.Validate that
+//     refuses a nil description, the published AstType has `if kind = K then required [key]`; for every list whose
+//     emptiness Validate refuses (enum values, disjunction branches, constraint arguments) the published definition
+//     requires the key with minItems >= 1;
+//   - the strict decoder leaves unknown keys to yaml.v3, which never looks at a merged value whose key the merging
+//     mapping defines too: the shape walk (which visits every mapping node) reports the keys a struct does not declare.
+func c20FourthHunt(ctx *Ctx, r *Report) {
+	yp := ctx.Pkg("internal/yaml")
+	ap := ctx.Pkg("internal/ast")
+	if yp == nil || ap == nil {
+		r.Undecided("anchor lost: internal/yaml / internal/ast")
+		return
+	}
+	readDefs := func(file string) map[string]map[string]any {
+		data, err := os.ReadFile(filepath.Join(ctx.Repo, file))
+		if err != nil {
+			r.Undecided("cannot read %s: %v", file, err)
+			return nil
+		}
+		var doc map[string]any
+		if err := json.Unmarshal(data, &doc); err != nil {
+			r.Undecided("cannot parse %s: %v", file, err)
+			return nil
+		}
+		out := map[string]map[string]any{}
+		raw, _ := doc["$defs"].(map[string]any)
+		for k, v := range raw {
+			if m, ok := v.(map[string]any); ok {
+				out[k] = m
+			}
+		}
+		return out
+	}
+	yamlKeyOf := func(st *types.Struct, f *types.Var) string {
+		for i := 0; i < st.NumFields(); i++ {
+			if st.Field(i) == f {
+				name, _, _ := strings.Cut(reflect.StructTag(st.Tag(i)).Get("yaml"), ",")
+				if name == "" {
+					name = strings.ToLower(f.Name())
+				}
+				return name
+			}
+		}
+		return ""
+	}
+	n := 0
+	// (a)
+	veneers := readDefs("schemas/veneers.json")
+	if veneers != nil {
+		info := yp.TypesInfo
+		selectors := 0
+		for _, file := range yp.Syntax {
+			for _, d := range file.Decls {
+				fd, ok := d.(*ast.FuncDecl)
+				if !ok || fd.Recv == nil || fd.Name.Name != "AsSelector" || fd.Body == nil {
+					continue
+				}
+				recv := info.Defs[fd.Recv.List[0].Names[0]]
+				nt := namedOf(recv.Type())
+				if nt == nil {
+					continue
+				}
+				st, ok := nt.Underlying().(*types.Struct)
+				if !ok {
+					continue
+				}
+				var criteria []string
+				ast.Inspect(fd.Body, func(m ast.Node) bool {
+					is, ok := m.(*ast.IfStmt)
+					if !ok {
+						return true
+					}
+					be, ok := ast.Unparen(is.Cond).(*ast.BinaryExpr)
+					if !ok || be.Op != token.NEQ || !isNilIdent(info, be.Y) {
+						return true
+					}
+					sel, ok := ast.Unparen(be.X).(*ast.SelectorExpr)
+					if !ok || !isIdentOf(info, sel.X, recv) {
+						return true
+					}
+					if f := fieldOf(info, sel); f != nil {
+						if key := yamlKeyOf(st, f); key != "" {
+							criteria = append(criteria, key)
+						}
+					}
+					return true
+				})
+				if len(criteria) == 0 {
+					continue
+				}
+				selectors++
+				sort.Strings(criteria)
+				names := make([]string, 0, len(veneers))
+				for name := range veneers {
+					names = append(names, name)
+				}
+				sort.Strings(names)
+				for _, name := range names {
+					def := veneers[name]
+					props, _ := def["properties"].(map[string]any)
+					all := true
+					for _, c := range criteria {
+						if _, ok := props[c]; !ok {
+							all = false
+						}
+					}
+					if !all {
+						continue
+					}
+					listed := map[string]bool{}
+					anyOf, _ := def["anyOf"].([]any)
+					for _, alt := range anyOf {
+						if m, ok := alt.(map[string]any); ok {
+							req, _ := m["required"].([]any)
+							for _, k := range req {
+								if s, ok := k.(string); ok {
+									listed[s] = true
+								}
+							}
+						}
+					}
+					var missing []string
+					for _, c := range criteria {
+						if !listed[c] {
+							missing = append(missing, c)
+						}
+					}
+					if min, _ := def["minProperties"].(float64); min >= 1 && len(props) == len(criteria) && len(anyOf) == 0 {
+						missing = nil // every key is a criterion and one is demanded
+					}
+					n++
+					r.Check(len(missing) == 0, "cfgschema/selector-criteria-complete", "schemas/veneers.json "+name+" lists the criteria of "+nt.Obj().Name(), fd.Pos(), "every key "+nt.Obj().Name()+".AsSelector tests is one of the alternatives",
+						fmt.Sprintf("%s.AsSelector accepts a selector made of %v alone, and the published definition %s does not count %v among its alternatives: `builders: [{omit: {generated_from_disjunction: true}}]` loads and does not validate", nt.Obj().Name(), criteria, name, missing))
+				}
+			}
+		}
+		if selectors == 0 {
+			r.Undecided("anchor changed: no AsSelector method tests its fields against nil")
+		}
+	}
+	// (b)
+	validate := ctx.LookupMethod("internal/ast", "Type", "Validate")
+	vfd, _ := ctx.DeclOf(validate)
+	typeT := ctx.LookupType("internal/ast", "Type")
+	if vfd == nil || typeT == nil {
+		r.Undecided("anchor lost: ast.Type.Validate")
+	} else {
+		info := ap.TypesInfo
+		tst, _ := typeT.Underlying().(*types.Struct)
+		type demand struct{ kind, key string }
+		var demands []demand
+		type listDemand struct {
+			owner *types.Named
+			key   string
+		}
+		var lists []listDemand
+		ast.Inspect(vfd.Body, func(m ast.Node) bool {
+			cc, ok := m.(*ast.CaseClause)
+			if !ok {
+				return true
+			}
+			var kinds []string
+			for _, e := range cc.List {
+				if tv, ok := info.Types[e]; ok && tv.Value != nil {
+					kinds = append(kinds, strings.Trim(tv.Value.ExactString(), `"`))
+				}
+			}
+			for _, st := range cc.Body {
+				ast.Inspect(st, func(k ast.Node) bool {
+					is, ok := k.(*ast.IfStmt)
+					if !ok || !endsInExit(is.Body) {
+						return true
+					}
+					be, ok := ast.Unparen(is.Cond).(*ast.BinaryExpr)
+					if !ok || be.Op != token.EQL {
+						return true
+					}
+					// t.X == nil
+					if isNilIdent(info, be.Y) {
+						if sel, ok := ast.Unparen(be.X).(*ast.SelectorExpr); ok {
+							if f := fieldOf(info, sel); f != nil && tst != nil {
+								for _, kind := range kinds {
+									demands = append(demands, demand{kind, yamlKeyOf(tst, f)})
+								}
+							}
+						}
+					}
+					// len(x.F) == 0
+					if c, ok := ast.Unparen(be.X).(*ast.CallExpr); ok && len(c.Args) == 1 {
+						if id, ok := ast.Unparen(c.Fun).(*ast.Ident); ok && id.Name == "len" {
+							if sel, ok := ast.Unparen(c.Args[0]).(*ast.SelectorExpr); ok {
+								if f := fieldOf(info, sel); f != nil {
+									if owner := namedOf(info.TypeOf(sel.X)); owner != nil {
+										if ost, ok := owner.Underlying().(*types.Struct); ok {
+											lists = append(lists, listDemand{owner, yamlKeyOf(ost, f)})
+										}
+									}
+								}
+							}
+						}
+					}
+					return true
+				})
+			}
+			return true
+		})
+		if len(demands) < 8 || len(lists) < 3 {
+			r.Undecided("anchor changed: ast.Type.Validate demands %d descriptions and %d non-empty lists", len(demands), len(lists))
+		}
+		for _, file := range []string{"schemas/compiler_passes.json", "schemas/veneers.json"} {
+			defs := readDefs(file)
+			if defs == nil {
+				continue
+			}
+			astType := defs["AstType"]
+			if astType == nil {
+				r.Undecided("anchor lost: %s has no AstType", file)
+				continue
+			}
+			// kind → keys required under `if kind = K`
+			then := map[string]map[string]bool{}
+			allOf, _ := astType["allOf"].([]any)
+			for _, clause := range allOf {
+				m, _ := clause.(map[string]any)
+				cond, _ := m["if"].(map[string]any)
+				props, _ := cond["properties"].(map[string]any)
+				kindProp, _ := props["kind"].(map[string]any)
+				k, _ := kindProp["const"].(string)
+				th, _ := m["then"].(map[string]any)
+				req, _ := th["required"].([]any)
+				if then[k] == nil {
+					then[k] = map[string]bool{}
+				}
+				for _, key := range req {
+					if s, ok := key.(string); ok {
+						then[k][s] = true
+					}
+				}
+			}
+			for _, d := range demands {
+				n++
+				r.Check(then[d.kind][d.key], "cfgschema/type-description-demanded", fmt.Sprintf("%s AstType demands `%s` for kind %s", file, d.key, d.kind), vfd.Pos(), "if kind = "+d.kind+" then required ["+d.key+"]",
+					fmt.Sprintf("ast.Type.Validate refuses a type of kind '%s' without `%s`, and the published AstType of %s demands `kind` only: `as: {kind: %s}` validates in an editor and is refused by the loader (type of kind '%s' without its description)", d.kind, d.key, file, d.kind, d.kind))
+			}
+			for _, l := range lists {
+				def := defs["Ast"+l.owner.Obj().Name()]
+				if def == nil {
+					r.Undecided("anchor lost: %s has no definition Ast%s", file, l.owner.Obj().Name())
+					continue
+				}
+				required := false
+				req, _ := def["required"].([]any)
+				for _, k := range req {
+					if k == l.key {
+						required = true
+					}
+				}
+				props, _ := def["properties"].(map[string]any)
+				prop, _ := props[l.key].(map[string]any)
+				min, _ := prop["minItems"].(float64)
+				n++
+				r.Check(required && min >= 1, "cfgschema/type-description-demanded", fmt.Sprintf("%s Ast%s demands a non-empty `%s`", file, l.owner.Obj().Name(), l.key), vfd.Pos(), "the key is required, with minItems >= 1",
+					fmt.Sprintf("ast.Type.Validate refuses an empty %s.%s, and the published definition Ast%s of %s does not demand it: `{kind: enum, enum: {}}` / `constraints: [{op: minLength}]` validate and are refused by the loader", l.owner.Obj().Name(), l.key, l.owner.Obj().Name(), file))
+			}
+		}
+	}
+	// (c)
+	if fn := ctx.LookupFunc("internal/yaml", "checkDocumentShape"); fn == nil {
+		r.Undecided("anchor lost: yaml.checkDocumentShape")
+	} else if fd, _ := ctx.DeclOf(fn); fd != nil {
+		info := yp.TypesInfo
+		reports := false
+		ast.Inspect(fd.Body, func(m ast.Node) bool {
+			cc, ok := m.(*ast.CaseClause)
+			if !ok {
+				return true
+			}
+			kinds := ""
+			for _, e := range cc.List {
+				kinds += exprString(e) + " "
+			}
+			if !strings.Contains(kinds, "MappingNode") {
+				return true
+			}
+			// variables holding typeOfMember(…)
+			members := map[types.Object]bool{}
+			ast.Inspect(cc, func(k ast.Node) bool {
+				if as, ok := k.(*ast.AssignStmt); ok && len(as.Lhs) == 1 && len(as.Rhs) == 1 {
+					if c, ok := ast.Unparen(as.Rhs[0]).(*ast.CallExpr); ok {
+						if f := callee(info, c); f != nil && f.Name() == "typeOfMember" {
+							if id, ok := as.Lhs[0].(*ast.Ident); ok {
+								members[objOf(info, id)] = true
+							}
+						}
+					}
+				}
+				return true
+			})
+			ast.Inspect(cc, func(k ast.Node) bool {
+				is, ok := k.(*ast.IfStmt)
+				if !ok || !endsInExit(is.Body) {
+					return true
+				}
+				rs, ok := is.Body.List[len(is.Body.List)-1].(*ast.ReturnStmt)
+				if !ok || len(rs.Results) != 1 || isNilIdent(info, rs.Results[0]) {
+					return true
+				}
+				nilMember, structTarget := false, false
+				ast.Inspect(is.Cond, func(q ast.Node) bool {
+					switch x := q.(type) {
+					case *ast.BinaryExpr:
+						if x.Op == token.EQL && isNilIdent(info, x.Y) {
+							if id, ok := ast.Unparen(x.X).(*ast.Ident); ok && members[objOf(info, id)] {
+								nilMember = true
+							}
+							if c, ok := ast.Unparen(x.X).(*ast.CallExpr); ok {
+								if f := callee(info, c); f != nil && f.Name() == "typeOfMember" {
+									nilMember = true
+								}
+							}
+						}
+					case *ast.SelectorExpr:
+						if x.Sel.Name == "Struct" {
+							structTarget = true
+						}
+					}
+					return true
+				})
+				if nilMember && structTarget {
+					reports = true
+				}
+				return true
+			})
+			return false
+		})
+		n++
+		r.Check(reports, "cfgschema/unknown-keys-in-shape-walk", "yaml.checkDocumentShape reports the keys a struct does not declare", fd.Pos(), "a key of a mapping decoded into a struct that typeOfMember does not know is an error",
+			"checkDocumentShape says nothing of a key the target struct does not declare and leaves it to yaml.v3's KnownFields — which skips a merged value whose key the merging mapping also defines before decoding it: `passes: [{<<: {omit: {objects: [a.B], injected: true}}, omit: {objects: [a.C]}}]` loads")
+	}
+	r.Count("hunted clauses of the configuration (4th hunt)", n)
+	r.Floor("hunted clauses of the configuration (4th hunt)", 30)
 }
